@@ -184,19 +184,20 @@ def monitors(h):
                     bad.append(("alerted-session-resumed", i, "server sent fatal alert %d %s on a session and resumes it "
                                 "in the next connection" % (a["desc"], where)))
             if a.get("post"):
-                note("record-path fatal alert on an established connection observed on the wire (%s)" % side)
+                note("record-path fatal alert %d on an established connection observed on the wire (%s, %s)"
+                     % (a["desc"], side, st.get("post", "")[2:]))
         if st.get("post") and cok and sok and not any(a.get("post") and a["level"] == 2 and a["side"] == st["post"][0]
                                                       for a in c["alerts"]):
-            note("forged record on an established connection did not provoke a fatal alert")
+            note("forged record on an established connection did not provoke a fatal alert (%s%s)"
+                 % (st["post"][2:], ", connection ids" if st["ccid"] >= 0 and st["scid"] >= 0 else ""))
         # M7 client_cert_not_stored
         if mode == 0 and any(w.startswith("c:") and "CERT" in w for w in c["wire"]):
             sid = c["sh_sid"][-1] if c["sh_sid"] else ""
             if sid and sid in post_s:
                 bad.append(("client-cert-session-stored", i, "server stored a session established with a client certificate"))
         # observations (not statements of the property)
-        if any(a.get("wrapped") and a["desc"] != 50 for a in c["alerts"]):
-            note("fatal alert sent as an UNPROTECTED tls12_cid record (connection ids already committed); the peer "
-                 "rejects it as 'invalid content type', answers decode_error and drops its own session")
+        if any(a.get("wrapped") and not a.get("enc") for a in c["alerts"]):
+            note("fatal alert sent as an UNPROTECTED tls12_cid record (connection ids already committed)")
         for o in c["ops_c"]:
             if o["op"] == "del" and o["key"] != c["key"]:
                 note("flight3Parse DelSession(session id) on the client store (keyed by address_name)")
@@ -295,9 +296,10 @@ def slim(h):
 HOW = ("harness/overlay/root/zz_verif_c14_test.go: one client and one server share two instrumented in-memory session "
        "stores over the connections of `conns` (in order); before a connection the script applies `step.muts` to the "
        "stores, configures `step.fault` (ems/sems: ExtendedMasterSecret Require vs Disable; alpn: disjoint protocols; "
-       "sverify/cverify: VerifyConnection returns an error; wrongpsk: client PSK differs; `step.post` c_/s_ app0|ct99: "
-       "after establishment ONE forged plaintext record - epoch-0 application_data or content type 99 - is delivered to "
-       "the client/server, whose protected alert is opened with the peer's keys), drops every datagram of "
+       "sverify/cverify: VerifyConnection returns an error; wrongpsk: client PSK differs; `step.post` c_/s_ app0|ct99|enc99: "
+       "after establishment ONE forged record - plaintext epoch-0 application_data, plaintext epoch-0 content type 99, "
+       "or content type 99 sealed with the session keys - is delivered to the client/server, whose protected alert, "
+       "if any, is opened with the peer's keys), drops every datagram of "
        "`step.bh` side that carries a ChangeCipherSpec, and applies `step.mask` per emitted datagram index")
 
 
@@ -386,9 +388,11 @@ def run(chk, script=None):
         vlib.cleanup(outp)
         if rci != 0:
             chk.broken("probe TestVerifC14Inject no longer runs against /repo (%s)" % vlib.classify_go_failure(oi), oi)
-        chk.count("forged-record-probe", len(inj), [j["to"] for j in inj if j["alerts"]])
+        chk.count("forged-record-probe", len(inj), [j["to"] for j in inj if j["alerts"] or j["c_out"] != "ok" or j["s_out"] != "ok"])
         chk.leg_info("forged-record-probe", what="ONE forged 14-byte epoch-0 record with content type 99 delivered during a "
-                     "resumed handshake (not covered by the model: it assumes unmodified datagrams)",
+                     "resumed handshake (not covered by the model: it assumes unmodified datagrams). Expected since "
+                     "the repair 'discard unprotected records whose content does not decode': silently discarded, both "
+                     "sides establish, nothing is deleted (non-trivial = anything else)",
                      observed=[{"to": j["to"], "c_out": j["c_out"], "s_out": j["s_out"], "wire": j["wire"],
                                 "receiver_deleted_its_session": any(o["op"] == "del" and o["hit"] for o in
                                                                     (j["ops_c"] if j["to"] == "client" else j["ops_s"]))}
